@@ -97,7 +97,41 @@ def gen_spec(rng, nmax=5, p_conn=0.45, p_split=0.5, p_comb=0.3, ext=False):
         nodes.append(nd)
         if kind == "L" and not nd.get("comb"):
             lnodes.append(name)
-    return {"nodes": nodes, "out": [nodes[-1]["name"]]}
+    # the workflow output is where the *order* of a node's jobs is observed: vary which node it is
+    out = nodes[-1]["name"] if rng.random() < 0.5 else rng.choice(nodes)["name"]
+    return {"nodes": nodes, "out": [out]}
+
+
+def gen_fanin(rng):
+    """k independently split source nodes feeding one fan-in node through randomly assigned fields (the merged
+    state is the outer product in *field* order, whatever the nodes are called or the order they were added in),
+    optionally followed by a combiner over one source's axis and a consumer"""
+    k = rng.randint(2, 3)
+    names = [f"N{i}" for i in range(k)]
+    rng.shuffle(names)
+    nodes = []
+    for nm in names:
+        n = rng.randint(1, 3)
+        nd = {"name": nm, "inputs": {"c": ["lit", nm.lower() + "c"]},
+              "split": {"form": "a", "vals": {"a": ["lit", [f"{nm.lower()}a{j}" for j in range(n)]]}}}
+        if rng.random() < 0.3:
+            nd["split"] = {"form": {"o": ["a", "b"]}, "vals": {"a": nd["split"]["vals"]["a"],
+                                                              "b": ["lit", [f"{nm.lower()}b{j}" for j in range(2)]]}}
+        nodes.append(nd)
+    fields = rng.sample(["a", "b", "c"], k)
+    fan = {"name": "M", "inputs": {f: ["node", nm] for f, nm in zip(fields, rng.sample(names, k))}}
+    free = [f for f in ["a", "b", "c"] if f not in fan["inputs"]]
+    if free and rng.random() < 0.4:
+        fan["split"] = {"form": free[0], "vals": {free[0]: ["lit", ["m0", "m1"]]}}
+    if rng.random() < 0.35:
+        src = rng.choice(names)
+        fan["comb"] = [f"{src}.a"]
+    nodes.append(fan)
+    out = "M"
+    if rng.random() < 0.4:
+        nodes.append({"name": "Z", "inputs": {"a": ["node", "M"]}})
+        out = rng.choice(["M", "Z"])
+    return {"nodes": nodes, "out": [out]}
 
 
 def run_spec(spec, wctx, worker="debug", n_procs=2, wfin=None, wfsplit=None, **subkw):
@@ -252,6 +286,8 @@ def run(ctx):
     cases = []
     for i in range(100 if quick else 3000):
         cases.append({"spec": gen_spec(rng, nmax=rng.choice([3, 4, 5])), "worker": "cf" if i % 15 == 0 else "debug"})
+    for i in range(40 if quick else 1500):
+        cases.append({"spec": gen_fanin(rng), "worker": "debug"})
     for i in range(60 if quick else 2500):
         c = {"spec": gen_spec(rng, nmax=rng.choice([3, 4, 5]), ext=True), "worker": "cf" if i % 15 == 7 else "debug",
              "wfin": {"x": "vx", "y": "vy"}}
